@@ -307,3 +307,39 @@ def scenario1d(rng, models=MODELS1D, bc=None, recons=ALL_RECONS, meshkinds=MESH_
     s.disc = md.fvm(s.model, s.mesh, s.num, numflux=s.flux, bcL=s.bcL, bcR=s.bcR)
     s.field = fdata_prim(s.model, s.mesh, s.prim)
     return s
+
+
+# ----------------------------------------------------------------------------- explicit problem specs (for twins)
+class Spec:
+    """fully explicit 1D problem: everything needed to (re)build it, so that transformed twins can be derived"""
+    def __init__(self, mname, mparams, faces, rname, flux, bcL, bcR, prim, section=None, k=None):
+        self.mname, self.mparams, self.faces, self.rname, self.flux = mname, dict(mparams), np.array(faces, float), rname, flux
+        self.bcL, self.bcR, self.prim, self.section = dict(bcL), dict(bcR), [np.array(p, float) for p in prim], section
+
+    def build(self):
+        if self.mname == "convection":
+            model = conv.model(self.mparams["convcoef"])
+        elif self.mname == "burgers":
+            model = burgers.model()
+        elif self.mname == "shallowwater":
+            model = shw.shallowwater1d(g=self.mparams["g"])
+        elif self.mname == "euler1d":
+            model = euler.euler1d(gamma=self.mparams["gamma"])
+        else:
+            model = euler.nozzle(self.section, gamma=self.mparams["gamma"])
+        mesh = mesh_from_faces(self.faces)
+        if self.rname.startswith("extrapolk("):
+            num = xnum.extrapolk(float(self.rname[10:-1]))
+        else:
+            num, _ = recon(self.rname)
+        disc = md.fvm(model, mesh, num, numflux=self.flux, bcL=self.bcL, bcR=self.bcR)
+        f = fdata_prim(model, mesh, self.prim)
+        return model, mesh, disc, f
+
+    def desc(self):
+        return {"model": self.mname, "params": self.mparams, "faces": self.faces, "recon": self.rname, "flux": self.flux,
+                "bcL": self.bcL, "bcR": self.bcR, "prim": self.prim, "section": getattr(self.section, "desc", None)}
+
+
+def spec_from_scn(s, section=None):
+    return Spec(s.mname, s.mparams, s.mesh.xf, s.rname, s.flux, s.bcL, s.bcR, s.prim, section=section)
